@@ -196,12 +196,15 @@ class ForwardHTTPConnection(ConnectionInterface):
             port=self._proxy_origin.port,
             target=bytes(request.url),
         )
+        # The "target" extension has already been applied to `request.url`, and
+        # must not replace the absolute-form target of the proxied request.
+        extensions = {k: v for k, v in request.extensions.items() if k != "target"}
         proxy_request = Request(
             method=request.method,
             url=url,
             headers=headers,
             content=request.stream,
-            extensions=request.extensions,
+            extensions=extensions,
         )
         return self._connection.handle_request(proxy_request)
 
@@ -280,11 +283,16 @@ class TunnelHTTPConnection(ConnectionInterface):
                 connect_headers = merge_headers(
                     [(b"Host", target), (b"Accept", b"*/*")], self._proxy_headers
                 )
+                # The "target" extension applies to the request sent through the
+                # tunnel, not to the CONNECT request that establishes it.
+                connect_extensions = {
+                    k: v for k, v in request.extensions.items() if k != "target"
+                }
                 connect_request = Request(
                     method=b"CONNECT",
                     url=connect_url,
                     headers=connect_headers,
-                    extensions=request.extensions,
+                    extensions=connect_extensions,
                 )
                 connect_response = self._connection.handle_request(
                     connect_request
